@@ -16,7 +16,7 @@ import (
 // limit of the first line in getNextLinebox.
 func c11Justify(c *core.Check) {
 	p := c.Prog
-	r := c.Rule("R10", "justification and indentation offsets: addWordSpacing, folded for a text box with and without spaces, moves the box by the advance accumulated so far (x + advance), widens it by spacing × spaces, and returns advance + spacing × spaces; in getNextLinebox the text indent moves the start of the line handed to splitInlineBox but not its right limit", 3)
+	r := c.Rule("R10", "justification and indentation offsets: addWordSpacing, folded for a text box with and without spaces, moves the box by the advance accumulated so far (x + advance), widens it by spacing × spaces, and returns advance + spacing × spaces; in getNextLinebox the text indent moves the start of the line handed to splitInlineBox but not its right limit", 1)
 	fn := p.Fn("html/layout", "addWordSpacing")
 	bpk := p.ByPath["html/boxes"]
 	if fn == nil || bpk == nil || bpk.Types.Scope().Lookup("TextBox") == nil {
